@@ -137,7 +137,9 @@ func (c *gengoCtx) pkgChanged(pkgPath string) bool {
 	if previous == nil || current == nil {
 		return true
 	}
-	return previous.Sum(pkgPath) != current.Sum(pkgPath)
+	cur := current.Sum(pkgPath)
+	// a package without a usable current sum (its directory could not be hashed) is never cached
+	return cur == "" || previous.Sum(pkgPath) != cur
 }
 
 func (c *gengoCtx) pkgExecute(pctx corecontext.Context, pkg string, generators ...Generator) (finalErr error) {
